@@ -328,7 +328,7 @@ def DD_FN(key):
     """One deduplicated function shared by every thread of the process."""
     B = CUR.B
     t = A.get_active_task()
-    DD_OWNER[id(t)] = _threading.current_thread().name
+    DD_OWNER[id(t)] = getattr(_threading.current_thread(), "sim_id", _threading.current_thread().name)
     B.dd_runs += 1
     B.ev("dd_body", key)
     tok = "dd%d.i%d" % (key, B.dd_runs)
@@ -1255,6 +1255,15 @@ class RealBackend(object):
         plan = self.flush_faults.get("%d#%d" % (kind, ordn))
         items = list(batch.items)
         for idx, it in enumerate(items):
+            if plan and plan.get("cancel_self_at") == idx:
+                # the service gives up (timeout): the body completes the rest through the public
+                # cancel() and returns normally
+                self.fired("flush_cancels_own_batch")
+                e = SimError("fc:%d#%d" % (kind, ordn))
+                self.errors[e.tag] = e
+                batch.cancel(e)
+                rec["end"] = len(self.trace)
+                return
             if plan and plan.get("raise_at") == idx:
                 self._flush_raise(kind, ordn, plan)
             f = self.item_faults.get("%d:%s" % (kind, it.key))
